@@ -223,7 +223,7 @@ func (c *converter) WriteFile(path string, content string, append string) error 
 	helper := c.nextHelperVar()
 
 	c.VarAssignment(helper, fmt.Sprintf(`$(if [ "%s" -eq "%s" ]; then echo ">>"; else echo ">"; fi)`, append, transpiler.BoolToString(true)), false)
-	c.addLine(fmt.Sprintf(`eval "echo \"%s\" %s \"%s\""`, content, c.varEvaluationString(helper, false), path))
+	c.addLine(fmt.Sprintf(`eval "echo \"%s\" %s \"%s\""`, c.deferExpansion(content), c.varEvaluationString(helper, false), c.deferExpansion(path)))
 	return nil
 }
 
@@ -387,7 +387,7 @@ func (c *converter) SliceInstantiation(values []string, valueUsed bool) (string,
 		vals := ""
 
 		for _, value := range values {
-			vals = fmt.Sprintf(`%s \"%s\"`, vals, value)
+			vals = fmt.Sprintf(`%s \"%s\"`, vals, c.deferExpansion(value))
 		}
 		c.addLine(fmt.Sprintf(`eval "%s=(%s)"`, c.varEvaluationString(helper, false), strings.TrimSpace(vals)))
 	}
@@ -575,7 +575,13 @@ func (c *converter) varEvaluationString(name string, global bool) string {
 
 func (c *converter) sliceAssignmentString(name string, index string, value string, global bool) string {
 	c.sliceAssignmentHelperRequired = true
-	return fmt.Sprintf(`eval "%s[%s]=\"%s\""`, name, index, value)
+	return fmt.Sprintf(`eval "%s[%s]=\"%s\""`, name, index, c.deferExpansion(value))
+}
+
+// deferExpansion prepares a value for being embedded in a string that is passed to eval: variables are
+// expanded by eval itself (once) instead of beforehand, so their content is not scanned a second time.
+func (c *converter) deferExpansion(value string) string {
+	return strings.ReplaceAll(value, "$", `\$`)
 }
 
 func (c *converter) sliceEvaluationString(name string, index string) string {
